@@ -91,8 +91,9 @@ def provide_schema(overlay: type[Overlay[Sc]], mediator: Mediator, loc_stack: Lo
             overlay_cls=overlay,
         ),
     )
-    if isinstance(loc_stack.last.type, type):
-        for parent in loc_stack.last.type.mro()[1:]:
+    origin = strip_alias(loc_stack.last.type)  # parametrized generic has parents of its origin
+    if isinstance(origin, type):
+        for parent in origin.mro()[1:]:
             try:
                 new_overlay = mediator.delegating_provide(
                     OverlayRequest(
